@@ -42,9 +42,10 @@ def schedules(total, tier, rng, bounds):
     yield 'baseline+close', {'cuts': bounds, 'eager_fin': True}
     yield 'at-once+close', {'eager_fin': True}
     yield 'dribble+close', {'dribble': True, 'eager_fin': True}
-    for c in range(1, total, 7):
+    wide = 1 if (tier == 'thorough' or total <= 600) else total // 300       # long streams: every offset only in thorough
+    for c in range(1, total, 7 * wide):
         yield 'cut@%d+close' % c, {'cuts': (c,), 'eager_fin': True}
-    for c in range(1, total):
+    for c in range(1, total, wide):
         yield 'cut@%d' % c, {'cuts': (c,)}
     if tier == 'thorough':
         step = 1 if total <= 200 else (2 if total <= 320 else 4)
